@@ -26,7 +26,7 @@ META = {
             'defaults on the profile (legacy mode: Session/Cluster attributes): consistency in {not given, THREE, ANY (0)}, serial consistency / retry policy custom or not given, '
             'the profile-only options in {not given; 4.25 s, dict_factory, custom load-balancing policy, constant speculative execution; request_timeout 0.0, tuple_factory, custom policy; '
             'request_timeout None, dict_factory, custom policy, constant speculative execution}, Session.default_fetch_size in {5000 default, 11, 0, None} x profile selection {default profile, '
-            'named profile, cloned instance (quick: one protocol version)} or legacy mode x timeout argument {omitted, None, 3.5, 0.0} x {routed by the policy, explicit host= (paged executions)} x protocol 2/4/5.  '
+            'named profile, cloned instance (quick: one protocol version)} or legacy mode x timeout argument {omitted, None, 3.5, 0.0} x {routed by the policy, explicit host= (paged executions, timeout argument omitted or 0.0)} x protocol 2/4/5 (quick: the request_timeout None variant with protocol 4).  '
             'In the named / cloned modes the default profile is a decoy: every option differs from the profile in use and its load-balancing policy routes to the other host.  '
             'An execution whose effective fetch size is positive is paged: the node hands out two paging states and the caller fetches pages 2 and 3 with start_fetching_next_page(); '
             'page 3 is answered by a read timeout so that the retry policy in effect is consulted.  '
@@ -48,6 +48,7 @@ TIMEOUT_ARGS = ['omitted', None, 3.5, 0.0]
 FETCHES = ['unset', 7, 0, None]
 DFETCHES = ['default', 11, 0, None]
 KINDS = ['simple', 'bound', 'bound_inherit', 'batch']
+EXPLICIT_HOST_WITH = ('omitted', 0.0)     # timeout arguments with which the explicit-host variant of a paged execution is run
 PS = [b'PS1', b'PS2']        # the paging states the node hands out; the request carrying the last one is answered by a read timeout
 DEFAULT_RETRY = ('a plain RetryPolicy',)
 DOCUMENTED_DEFAULT_FETCH = 5000
@@ -269,7 +270,11 @@ def run_case(part, env, group, kind, own, targ, harg, stmt_retry):
     recorders = env['recorders'] + [stmt_retry]
 
     def bad(option, level, got, want, page=1):
-        part.violation('C46/%s/%s/%s%s' % (option, level, where, '' if page == 1 else '/later-page'),
+        fp = 'C46/%s/%s/%s%s' % (option, level, where, '' if page == 1 else '/later-page')
+        if any(v[0] == fp for v in part.violations):
+            part.violation(fp, '', None)      # one written-out case per fingerprint and worker; the rest is counted
+            return
+        part.violation(fp,
                        '%s in effect (%s, request for page %d): %r, precedence rule gives %r [statement %s with own options cl=%s serial=%s retry=%s fetch_size=%r, '
                        'timeout argument %r, host argument %s; defaults as configured (%s): %r; protocol v%d]'
                        % (option, level, page, got, want, kind, bool(s_cl), bool(s_serial), bool(s_retry), s_fetch, targ, harg, mode,
@@ -422,7 +427,7 @@ def run_group(group, only=None):
                 own = (s_cl, s_serial, s_retry, s_fetch)
                 paged = kind != 'batch' and ref.wire_page_size(ref.effective(ref.UNSET if s_fetch == 'unset' else s_fetch, d['fetch'])) is not None
                 for targ in TIMEOUT_ARGS:
-                    for harg in (['lbp', 'explicit'] if paged else ['lbp']):
+                    for harg in (['lbp', 'explicit'] if paged and targ in EXPLICIT_HOST_WITH else ['lbp']):
                         if only is not None and only != (kind, list(own), targ, harg):
                             continue
                         run_case(part, env, group, kind, own, targ, harg, stmt_retry)
@@ -444,7 +449,7 @@ def groups(ctx):
         for mode in ['profile-default', 'profile-named', 'legacy']:
             for pv in (2, 4, 5):
                 for pb in bits:
-                    for pextra in (0, 1, 2, 3):
+                    for pextra in ((0, 1, 2, 3) if pv == 4 else (0, 1, 2)):
                         # Session.default_fetch_size: every value with every mode x version x consistency default x profile-only variant
                         out.append((mode, pv, pb, pextra, DFETCHES[(pextra + pb[1] + 2 * pb[2]) % 4]))
         for pb in bits:
@@ -468,9 +473,9 @@ def run(ctx):
         ctx.merge(part)
     ctx.cov['rule'] = ('groups = configuration mode x protocol version x consistency default {not given, THREE, ANY} x custom/not given for serial consistency, retry policy x '
                        'profile-only options {not given, custom, request_timeout 0.0, request_timeout None} x Session.default_fetch_size%s; per group every statement kind x own '
-                       'option combination x timeout argument x (paged executions) routed by the policy / explicit host, each paged execution through 3 page requests; non-trivial = '
+                       'option combination x timeout argument x (paged executions, timeout argument omitted or 0.0) routed by the policy / explicit host, each paged execution through 3 page requests; non-trivial = '
                        'a case in which the statement (or the call) sets at least one option while at least one default is configured; %d groups'
-                       % (' (quick: one of {default, 11, 0, None} per group, chosen so that each occurs with every mode x version x consistency default x profile-only variant; '
+                       % (' (quick: request_timeout None with protocol 4 only; one of {default, 11, 0, None} per group, chosen so that each occurs with every mode x version x consistency default x profile-only variant; '
                           'cloned-instance mode for protocol 4 with serial/retry defaults both custom or both not given)' if ctx.quick else '', len(gs)))
     ctx.cov['exhaustive'] = True
     ctx.assume('statements are marked idempotent, so that a speculative execution plan is requested from the policy in effect')
